@@ -35,6 +35,11 @@ ASSUMPTIONS = [
     "half turn are skipped and counted (open C01 finding in the library's matrix log, used by move/globalToLocal)",
     "spinCustom is applied only while the platform stands at its neutral relative pose (DESIGN C09 G)",
     "FK calls run under a 30 s runaway guard (fsolve / fallback recursion) -> inconclusive, counted",
+    "three proposed open known findings (fk_regions): Raphson runs out of iterations / lands on a second exact root for "
+    "top/bottom ratio <= 0.40 under |rotation vector| >= 0.25, and fk_mode=0 (fsolve) returning another exact root of "
+    "the leg-length equations; each is recognised by a signature computed from public state (fail_count + plates at "
+    "neutral; returned pose reproduces the requested lengths to 0.3e-3 h over the requested base) -- cases are executed "
+    "and counted, nothing else is suppressed",
 ]
 
 warnings.filterwarnings("ignore", message=".*np.dot\\(\\) is faster on contiguous arrays.*")
